@@ -26,6 +26,7 @@ import (
 var goenv = []string{"GOFLAGS=-mod=mod", "GOPROXY=off", "GOSUMDB=off", "GOTOOLCHAIN=local", "CGO_ENABLED=0"}
 
 const hangAfter = 20 * time.Second
+const maxQuickRuns = 1000
 
 func main() {
 	if len(os.Args) < 2 {
@@ -426,12 +427,13 @@ const expectedValid = "exit status 0 with generated files, no trace"
 // ---------------------------------------------------------------- run
 
 type job struct {
-	c     *Case
-	dir   string
-	files map[string]string
-	ip    inproc
-	obs   map[string]obs
-	bes   []string
+	c       *Case
+	dir     string
+	files   map[string]string
+	ip      inproc
+	obs     map[string]obs
+	bes     []string
+	skipped []string
 }
 
 var backends = []string{"go", "fastgo"}
@@ -486,18 +488,19 @@ func run(repo, dir string, seed uint64, tier string) error {
 	}
 	out := vl.NewOut(dir)
 	r := vl.NewRng(seed)
-	nRandom, perRule, crashOnRandom := 11, 1, false
+	nRandom, perRule := 11, 1
 	if tier == "thorough" {
-		nRandom, crashOnRandom = 99, true
+		nRandom = 99
 	}
 	if v := os.Getenv("VERIF_C04_BASES"); v != "" { // development aid
 		fmt.Sscan(v, &nRandom)
 	}
 	var cases []*Case
-	cases = append(cases, buildCases("minimal", minimalBase, r, true, 0, true)...)
+	cases = append(cases, regressionCases()...)
+	cases = append(cases, buildCases("minimal", minimalBase, r, true, 0)...)
 	for k := 0; k < nRandom; k++ {
 		s := seed*1000003 + uint64(k)*7919 + 17
-		cases = append(cases, buildCases(fmt.Sprintf("seed:%d", s), func() *GProg { return genBase(s) }, r, false, perRule, crashOnRandom)...)
+		cases = append(cases, buildCases(fmt.Sprintf("seed:%d", s), func() *GProg { return genBase(s) }, r, false, perRule)...)
 	}
 	jobs := make([]*job, len(cases))
 	root := filepath.Join(dir, "cases")
@@ -546,12 +549,20 @@ func run(repo, dir string, seed uint64, tier string) error {
 	var units []unit
 	for i, j := range jobs {
 		j.bes = backends
-		if !(j.c.Base == "minimal" && (j.c.Pos == "main" || j.c.Pos == "base" || j.c.Pos == "cmdline")) {
+		if !(j.c.Base == "regression" || j.c.Base == "minimal" && (j.c.Pos == "main" || j.c.Pos == "base" || j.c.Pos == "cmdline")) {
 			j.bes = []string{backends[i%2]} // elsewhere the two backends alternate
 		}
 		for _, be := range j.bes {
 			units = append(units, unit{j, be})
 		}
+	}
+	// quick tier: at most maxQuickRuns process runs (~57 ms each on a quiet machine); the surplus is
+	// cut from the end, i.e. from the sampled edits of the last random programs
+	if tier != "thorough" && len(units) > maxQuickRuns {
+		for _, u := range units[maxQuickRuns:] {
+			u.j.skipped = append(u.j.skipped, u.be)
+		}
+		units = units[:maxQuickRuns]
 	}
 	t0 := time.Now()
 	parallel(len(units), 16, func(i int) {
@@ -585,7 +596,7 @@ func run(repo, dir string, seed uint64, tier string) error {
 		c := j.c
 		out.Count("rule:" + c.Rule)
 		out.Count("pos:" + c.Pos)
-		out.Count("base:" + map[bool]string{true: "minimal", false: "random"}[c.Base == "minimal"])
+		out.Count("base:" + map[bool]string{true: c.Base, false: "random"}[c.Base == "minimal" || c.Base == "regression"])
 		nontrivial := c.Rule != "none"
 		if c.Pos != "cmdline" {
 			switch {
@@ -599,7 +610,11 @@ func run(repo, dir string, seed uint64, tier string) error {
 			}
 		}
 		for _, be := range j.bes {
-			o := j.obs[be]
+			o, ran := j.obs[be]
+			if !ran {
+				out.Count("binary:skipped-by-cap")
+				continue
+			}
 			prog := j.ip.Op
 			syntaxBad := c.SyntaxBad
 			if c.Pos != "cmdline" {
